@@ -68,3 +68,11 @@ pub(crate) fn gap_stub<'a>(_r: &'a TextResource, offset: &Offset) -> Result<&'a 
     }
     Ok(if ws { " " } else { "x" })
 }
+
+pub(crate) fn set3(a: TextSelection, b: TextSelection, c: TextSelection) -> TextSelectionSet {
+    TextSelectionSet {
+        data: SmallVec::from_vec(vec![a, b, c]),
+        resource: TextResourceHandle::new(0),
+        sorted: false,
+    }
+}
